@@ -337,17 +337,33 @@ def job_partially_linear(sd, idx):
         return float(v.as_fraction()) if z3.is_rational_value(v) else float(v.approx(15).as_fraction())
     D = [max(0.0, val(d)) for d in dsa]
     L = [val(l) for l in lawsa]
-    # realise the abstract model: state e_1, anchor_j = (1 + sqrt(D_j), 0, ...), law_j = (L_j, 0, ...)
-    state = [1.0] + [0.0] * (sd - 1)
-    params = []
-    for a in range(k):
-        params += [1.0 + math.sqrt(D[a])] + [0.0] * (sd - 1) + [L[a]] + [0.0] * (sd - 1)
-    w = dict(kind="partially_linear", sd=sd, idx=idx, state=state, params=params, abstract_distances=D, abstract_laws=L)
-    bad, info = replay(w)
-    w["observed"] = info
-    if bad:
-        return violated("nearest_anchor_law", f"dynamic_control/controllers/partially_linear.py:{ctrl.name}",
-                        f"{ctrl.name} ({sd}d, {k} anchors): state {state} params {params} -> {info}", w, validated=1, **common)
+    # realise the abstract model: state e_axis, anchor_j = e_axis * (1 + sqrt(D_j)), law_j = e_axis * L_j, for each axis;
+    # if none of these collinear realisations reproduces (the difference may sit in another coordinate), fall back to a
+    # seeded search over a small integer grid of states/parameters (witness construction only: the solver has already
+    # shown that code and specification differ as terms)
+    cands = []
+    for axis in range(sd):
+        state = [0.0] * sd
+        state[axis] = 1.0
+        params = []
+        for a in range(k):
+            anc = [0.0] * sd
+            anc[axis] = 1.0 + math.sqrt(D[a])
+            law = [0.0] * sd
+            law[axis] = L[a]
+            params += anc + law
+        cands.append((state, params))
+    rnd = random.Random(12345)
+    for _ in range(3000):
+        cands.append(([float(rnd.randint(-4, 4)) for _ in range(sd)], [float(rnd.randint(-5, 5)) for _ in range(ctrl.param_dims)]))
+    for state, params in cands:
+        w = dict(kind="partially_linear", sd=sd, idx=idx, state=state, params=params, abstract_distances=D, abstract_laws=L)
+        bad, info = replay(w)
+        if bad:
+            w["observed"] = info
+            return violated("nearest_anchor_law", f"dynamic_control/controllers/partially_linear.py:{ctrl.name}",
+                            f"{ctrl.name} ({sd}d, {k} anchors): state {state} params {params} -> {info}", w, validated=1, **common)
+    w = dict(kind="partially_linear", sd=sd, idx=idx, abstract_distances=D, abstract_laws=L)
     return inconclusive(f"abstract counterexample does not replay: {w}", **common)
 
 
